@@ -3,7 +3,8 @@
     the root to a leaf passes the same number of black nodes (root colour unconstrained, as in the
     code).  [bst]: the in-order key list is strictly increasing. *)
 From Coq Require Import List NArith ZArith.
-Require Import ITree.Model.RBTree ITree.Proofs.RBElems ITree.Proofs.RBInv.
+Require Import ITree.Model.Common ITree.Model.RBTree ITree.Model.MapModel ITree.Spec.MapSpec.
+Require Import ITree.Proofs.RBElems ITree.Proofs.RBInv ITree.Proofs.MapProofs ITree.Proofs.MapTheorems.
 
 (* insertion (the shared core of MapTree / SetTree / KeyExpTree::insert) keeps red-black validity *)
 Theorem C02_insert_rb : forall (ent: Type) (key_of: ent -> Z) (t: tree ent) (slot: N) (e: ent),
@@ -19,7 +20,17 @@ Theorem C02_delete_rb : forall (ent: Type) (t: tree ent) (x: N),
   | Stuck => False
   | Done t' d f => rbi ent t'
   end.
-Proof.
-  intros ent t x H. pose proof (del_rb ent t x H) as K.
-  destruct (del ent t x); auto. apply K.
-Qed.
+Proof. exact delete_rb_total. Qed.
+
+(* a valid red-black tree (root colour free) with n nodes has height at most 2*log2(n+1)+1 *)
+Theorem C02_height : forall (ent: Type) (t: tree ent),
+  rbi ent t -> (height ent t <= 2 * Nat.log2 (size ent t + 1) + 1)%nat.
+Proof. exact rb_height_bound. Qed.
+
+(* map / set: in every state reachable by a valid user-level history (insert, delete by key, delete
+   and write through handles, clear, all queries) the tree is a valid red-black tree, a search tree in
+   key order, no slot occurs twice, and the height bound holds *)
+Theorem C02_map : forall (cap: N) (s: mstate), reachable cap s ->
+  rbi ment (root s) /\ bst ment mkey (root s) /\ List.NoDup (slots ment (root s)) /\
+  (height ment (root s) <= 2 * Nat.log2 (size ment (root s) + 1) + 1)%nat.
+Proof. exact map_rb_bst. Qed.
